@@ -28,6 +28,8 @@ struct Meta {
     fchk: bool,
     nc: bool,
     lim: i64,
+    /// letters of the observed commands nested inside this one
+    inner: Vec<char>,
 }
 
 struct Gen {
@@ -55,7 +57,7 @@ impl Gen {
         let t = self.pick(&[0, 1, 1, 2, 2, 3, 3, 4, 5, 6, 7, 8, 9]);
         let x = self.rng.gen_range(0..100);
         let path = self.pick(&["a", "a", "b", "c", "m", "m", "n", "d", "t"]);
-        let n = self.pick(&[0, 1, 1, 2, 2, 3, 3, 4, 5, 6, 7, 8, 9, 10, 11]);
+        let n = self.pick(&[0, 0, 1, 1, 1, 2, 2, 2, 3, 3, 4, 5, 6, 7, 8, 9, 10, 11]);
         let (op, path, n) = match x {
             0..=9 => ("in", path, -1),
             10..=24 => ("out", path, -1),
@@ -104,15 +106,16 @@ impl Gen {
             fchk,
             nc: self.nc,
             lim: self.lim,
+            inner: vec![],
         });
     }
 
     /// One observed command (with the observations around it), as script text.
-    fn command(&mut self, depth: usize, out: &mut String) {
+    fn command(&mut self, depth: usize, exec_ok: bool, out: &mut String) {
         let Some(l) = self.letter() else { return };
         let x = self.rng.gen_range(0..100);
         if x < 62 || depth >= 3 {
-            self.leaf(l, depth, out);
+            self.leaf(l, depth, exec_ok, out);
         } else if x < 80 {
             self.nest(l, depth, out);
         } else if x < 92 {
@@ -122,12 +125,20 @@ impl Gen {
         }
     }
 
-    fn leaf(&mut self, l: char, depth: usize, out: &mut String) {
-        let kind = self.pick(&[
-            "special", "builtin", "builtin", "function", "function", "group", "group", "subshell", "notfound",
-            "empty", "exec", "exec",
+    fn leaf(&mut self, l: char, depth: usize, exec_ok: bool, out: &mut String) {
+        let mut kind = self.pick(&[
+            "special", "builtin", "builtin", "function", "function", "group", "group", "subshell", "subshell",
+            "notfound", "empty", "exec",
         ]);
-        let list = self.redirs(4, true);
+        // `exec` changes the table of the enclosing command for good: only
+        // where no enclosing command of the same process is being judged
+        if kind == "exec" && !exec_ok {
+            kind = "group";
+        }
+        let mut list = self.redirs(4, true);
+        if kind == "empty" && list.is_empty() {
+            list.push(self.redir(true));
+        }
         let mut bst = if matches!(kind, "builtin" | "function" | "group") && self.rng.gen_bool(0.3) { 3 } else { 0 };
         let marks = self.marks();
         let tag = format!("c{l}");
@@ -173,8 +184,10 @@ impl Gen {
         let mut inner = String::new();
         let n = self.rng.gen_range(1..=3);
         for _ in 0..n {
-            self.command(depth + 1, &mut inner);
+            self.command(depth + 1, kind == "subshell", &mut inner);
         }
+        let inner_letters: Vec<char> =
+            (first_inner..self.next).filter_map(|i| LETTERS.get(i).map(|&b| b as char)).collect();
         let Some(&fl) = LETTERS.get(first_inner) else { return };
         // the nested commands' text ends with a newline: fine inside { }, ( ) and function bodies
         match kind {
@@ -192,6 +205,7 @@ impl Gen {
         self.meta(l, kind, list, 0, depth, false, false);
         // what the body saw = the table just before its first command
         self.metas[idx].ctag = format!("b{}", fl as char);
+        self.metas[idx].inner = inner_letters;
     }
 
     fn pipeline(&mut self, l: char, depth: usize, out: &mut String) {
@@ -254,7 +268,7 @@ fn gen_script(seed: u64) -> (String, Vec<Meta>) {
                 g.lim = g.rng.gen_range(3..=16);
                 s.push_str(&format!("ulimit -n {}\n", g.lim));
             }
-            _ => g.command(0, &mut s),
+            _ => g.command(0, true, &mut s),
         }
     }
     (s, g.metas)
@@ -303,6 +317,7 @@ pub fn random(args: &[String]) -> i32 {
             o.insert("oc".into(), json!(scen::outcome_str(&r.outcome)));
             o.insert("drift".into(), json!(""));
             o.insert("init".into(), json!("random"));
+            o.insert("inner".into(), json!(m.inner.iter().map(|c| c.to_string()).collect::<Vec<_>>()));
             writeln!(w, "{rec}").unwrap();
         }
     }
